@@ -369,23 +369,23 @@ Ltac splits := repeat match goal with |- _ /\ _ => split end.
 Lemma ok_calls_cons_ok x d calls : ok_calls (ATermInAsg x d true :: calls) = 1 + ok_calls calls.
 Proof. reflexivity. Qed.
 
-Lemma delete_loop_spec nodes : forall a k fails,
-  let '(calls, r, a') := delete_loop a nodes k fails in
+Lemma delete_loop_spec nodes : forall a fails,
+  let '(calls, r, a') := delete_loop a nodes fails in
   del_trace a nodes calls (del_class r) /\ (zlen calls <= zlen nodes) /\
   a_desired a' = a_desired a - ok_calls calls /\ a_instances a' = a_instances a /\ a_min a' = a_min a /\
   r <> DelNoInstance /\ r <> DelErrMin /\ r <> DelErrBreach /\
   (forall x, r = DelNotInGroup x -> exists n, nth_error nodes (length calls) = Some n /\ n_name n = x /\ belongs a (n_pid n) = false).
 Proof.
-  induction nodes as [|n rest IH]; intros a k fails.
+  induction nodes as [|n rest IH]; intros a fails.
   - simpl. splits; try constructor; try discriminate; try lia;
       try (unfold ok_calls; simpl; lia); try (intros x Hx; discriminate).
   - cbn [delete_loop]. destruct (belongs a (n_pid n)) eqn:Eb; cbn [negb].
     + destruct (belongs_backing a (n_pid n) Eb) as [i [Hi [Hin Hpid]]]. rewrite Hi.
-      destruct (mem_nat k fails) eqn:Ef.
+      destruct (mem_bytes (i_id i) fails) eqn:Ef.
       * splits;
           first [ (eapply DT_fail; eassumption) | reflexivity | discriminate | (unfold zlen, ok_calls; simpl; lia) | idtac ].
-      * specialize (IH (set_desired a (a_desired a - 1)) (S k) fails).
-        destruct (delete_loop (set_desired a (a_desired a - 1)) rest (S k) fails) as [[calls r] a'].
+      * specialize (IH (set_desired a (a_desired a - 1)) fails).
+        destruct (delete_loop (set_desired a (a_desired a - 1)) rest fails) as [[calls r] a'].
         destruct IH as [H1 [H2 [H3 [H4 [H5 [H6 [H7 [H8 H9]]]]]]]].
         splits;
           first [ assumption
@@ -420,7 +420,7 @@ Proof.
   intros H1 H2 Hd. unfold aws_delete_nodes in Hd.
   destruct (Z.leb_spec (a_desired a) (a_min a)); [lia|].
   destruct (Z.ltb_spec (a_desired a - zlen nodes) (a_min a)); [lia|].
-  pose proof (delete_loop_spec nodes a 0%nat fails) as Hs. rewrite Hd in Hs.
+  pose proof (delete_loop_spec nodes a fails) as Hs. rewrite Hd in Hs.
   destruct Hs as [S1 [S2 [S3 [S4 [S5 [S6 [S7 [S8 S9]]]]]]]].
   repeat split; try assumption. lia.
 Qed.
